@@ -18,6 +18,7 @@
   at which both back-ends implement the opcode.
 -/
 import BMV.Proofs.Refine
+import BMV.Proofs.RefinePipe
 namespace BMV.Props.C01
 open BMV BMV.Bits BMV.Refine
 
@@ -64,6 +65,71 @@ theorem trace_eq (a : Arch) (prog : List Bits) (s : VmState) (h : RtlState) (ps 
       have hr : Rel (setEnv s' (ps.headD p)) (Rtl.cycle a prog h p) := ⟨hr0.1, hr0.2.1, hr0.2.2⟩
       obtain ⟨sk, hk', r1, r2⟩ := ih hr k (by simpa using hk)
       exact ⟨sk, hk', r1, by simpa using r2⟩
+
+/-! ### the two-tick ("pipelined") opcodes addp / multp / divp
+
+Both back-ends spend two ticks on these instructions, so the comparison stays tick by tick; the
+relation gains `PipeRel` (the simulator's phase flag = the hardware's `<op>_<tag>_state` register;
+in the second tick the latched `input_a` / `input_b` are the registers the instruction names). -/
+
+/-- one tick of a pipelined opcode preserves both relations -/
+theorem rtl_refines_isa_pipelined (a : Arch) (prog : List Bits) (s s' : VmState) (h : RtlState) (p : PortsIn)
+    (w : Bits) (op : String) (H : PipeHyp a prog s h p w op s') :
+    Rel s' (Rtl.cycle a prog h p) ∧ PipeRel a prog s' (Rtl.cycle a prog h p) :=
+  refine_pipe H
+
+/-- the one-clock opcodes leave the pipeline relation alone -/
+theorem pipeline_kept_by_one_clock_opcodes (a : Arch) (prog : List Bits) (s s' : VmState) (h : RtlState)
+    (p : PortsIn) (w : Bits) (op : String) (H : StepHyp a prog s h p w op s') (hp : PipeRel a prog s h) :
+    PipeRel a prog s' (Rtl.cycle a prog h p) :=
+  lockstep_keeps_pipe H hp
+
+/-- it holds initially: `VM.Init` against the reset hardware -/
+theorem pipeRel_init (a : Arch) (prog : List Bits) : PipeRel a prog (Isa.init a) (Rtl.reset a) := by
+  refine ⟨by simp [Isa.init], fun op hop => ?_⟩
+  simp only [Isa.pipeOps, List.mem_cons, List.not_mem_nil, or_false] at hop
+  rcases hop with rfl | rfl | rfl <;> simp [Isa.init, Rtl.reset, RtlState.getPipe]
+
+/-- runs over programs that mix one-clock and pipelined opcodes -/
+inductive GoodRunP (a : Arch) (prog : List Bits) : VmState → RtlState → List PortsIn → Prop
+  | nil (s h) : GoodRunP a prog s h []
+  | lock (s s' h p ps w op) :
+      StepHyp a prog s h p w op s' →
+      GoodRunP a prog (setEnv s' (ps.headD p)) (Rtl.cycle a prog h p) ps →
+      GoodRunP a prog s h (p :: ps)
+  | pipe (s s' h p ps w op) :
+      PipeHyp a prog s h p w op s' →
+      GoodRunP a prog (setEnv s' (ps.headD p)) (Rtl.cycle a prog h p) ps →
+      GoodRunP a prog s h (p :: ps)
+
+/-- equal traces, tick by tick, for programs over the one-clock AND the pipelined opcodes -/
+theorem trace_eq_pipelined (a : Arch) (prog : List Bits) (s : VmState) (h : RtlState) (ps : List PortsIn)
+    (hrel : Rel s h) (hprel : PipeRel a prog s h) (hrun : GoodRunP a prog s h ps) :
+    ∀ k, k ≤ ps.length →
+      ∃ sk hk, Rel sk hk ∧ PipeRel a prog sk hk ∧ hk = (ps.take k).foldl (fun st p => Rtl.cycle a prog st p) h := by
+  induction hrun with
+  | nil s h => intro k hk; simp at hk; subst hk; exact ⟨s, h, hrel, hprel, rfl⟩
+  | lock s s' h p ps w op H _ ih =>
+    intro k hk
+    cases k with
+    | zero => exact ⟨s, h, hrel, hprel, rfl⟩
+    | succ k =>
+      have hr0 := refine_lockstep H
+      have hp0 := lockstep_keeps_pipe H hprel
+      have hr : Rel (setEnv s' (ps.headD p)) (Rtl.cycle a prog h p) := ⟨hr0.1, hr0.2.1, hr0.2.2⟩
+      have hp : PipeRel a prog (setEnv s' (ps.headD p)) (Rtl.cycle a prog h p) := hp0
+      obtain ⟨sk, hk', r1, r2, r3⟩ := ih hr hp k (by simpa using hk)
+      exact ⟨sk, hk', r1, r2, by simpa using r3⟩
+  | pipe s s' h p ps w op H _ ih =>
+    intro k hk
+    cases k with
+    | zero => exact ⟨s, h, hrel, hprel, rfl⟩
+    | succ k =>
+      obtain ⟨hr0, hp0⟩ := refine_pipe H
+      have hr : Rel (setEnv s' (ps.headD p)) (Rtl.cycle a prog h p) := ⟨hr0.1, hr0.2.1, hr0.2.2⟩
+      have hp : PipeRel a prog (setEnv s' (ps.headD p)) (Rtl.cycle a prog h p) := hp0
+      obtain ⟨sk, hk', r1, r2, r3⟩ := ih hr hp k (by simpa using hk)
+      exact ⟨sk, hk', r1, r2, by simpa using r3⟩
 
 /-- Enabling the hardware optimisation derived from the program never changes behaviour: with any
     register sets that contain what the assembler records for the program (`destRegs`; the
@@ -115,5 +181,39 @@ example : ∃ s', StepHyp demoArch demoProg { Isa.init demoArch with inputs := [
     outLen := by decide, rel := ⟨rfl, rfl, rfl⟩, env := rfl, fetch := by decide, decode := by decide,
     lock := by decide, width := by simp [coWidth, Isa.stdSize, demoArch], step := by decide, noFall := by decide,
     jumpIn := by decide }
+
+
+/-- the pipelined opcodes, concretely: `rset r0 6; rset r1 7; multp r0 r1; j 3` — six ticks of both
+    models agree on pc and registers (the multiplication takes ticks 3 and 4) -/
+def demoArchP : Arch :=
+  { rsize := 8, r := 1, n := 0, m := 0, l := 0, o := 2, ops := ["j", "multp", "rset"] }
+def demoProgP : List Bits :=
+  [ofString01 "10000000110", ofString01 "10100000111", ofString01 "01010000000", ofString01 "00110000000"]
+
+example : demoArchP.maxWord = 11 := by decide
+example :
+    let run := fun (k : Nat) =>
+      (List.range k).foldl (fun (st : Option VmState × RtlState) _ =>
+        (st.1.bind (Isa.step demoArchP demoProgP), Rtl.cycle demoArchP demoProgP st.2 {}))
+        (some (Isa.init demoArchP), Rtl.reset demoArchP)
+    (List.range 7).map (fun k =>
+      match run k with
+      | (some s, h) => (s.pc == h.pc && s.regs == h.regs, s.regs, s.phase)
+      | _ => (false, [], [])) =
+    [(true, [0, 0], []), (true, [6, 0], []), (true, [6, 7], []), (true, [6, 7], ["multp"]),
+     (true, [42, 7], []), (true, [42, 7], []), (true, [42, 7], [])] := by decide
+
+/-- the premises of `rtl_refines_isa_pipelined` are satisfiable: first tick of the `multp` above -/
+example : ∃ s', PipeHyp demoArchP demoProgP { Isa.init demoArchP with pc := 2, regs := [6, 7] }
+    { Rtl.reset demoArchP with pc := 2, regs := [6, 7] } {} (ofString01 "01010000000") "multp" s' := by
+  refine ⟨{ Isa.init demoArchP with pc := 2, regs := [6, 7], phase := ["multp"] }, ?_⟩
+  exact {
+    ws := rfl, wlen := by decide, rel := ⟨rfl, rfl, rfl⟩,
+    prel := by
+      refine ⟨by simp [Isa.init], fun op hop => ?_⟩
+      simp only [Isa.pipeOps, List.mem_cons, List.not_mem_nil, or_false] at hop
+      rcases hop with rfl | rfl | rfl <;> simp [Isa.init, Rtl.reset, RtlState.getPipe],
+    fetch := by decide, decode := by decide, pipe := by decide, width := by decide,
+    step := by decide, noFall := by decide }
 
 end BMV.Props.C01
